@@ -593,8 +593,8 @@ Definition discard (s : state) (n : N) : state * out :=
   if n <=? s_committed s then (s, Err EIllegalArg) else
   if s_inmem s <? n then (s, ok0) else
   let cnt := s_inmem s + 1 - n in
-  (* aht.ResetSize(aht.Size() - uint64(txsToDiscard)): uint64 arithmetic *)
-  let newsz := (lenN (s_aht s) + 2 ^ 64 - cnt) mod 2 ^ 64 in
+  (* aht.ResetSize(aht.Size() - uint64(txsToDiscard)): uint64 arithmetic, wraps when size < count *)
+  let newsz := if lenN (s_aht s) <? cnt then lenN (s_aht s) + 2 ^ 64 - cnt else lenN (s_aht s) - cnt in
   match aht_reset (s_aht s) newsz with
   | Err e => (s, Err e) | Panic => (s, Panic)
   | Ok a' =>
